@@ -1349,6 +1349,7 @@ func main() {
 	name := flag.String("name", "repo", "prefix of the generated Coq identifiers")
 	jsonPath := flag.String("json", "", "side file with names (for diagnostics)")
 	module := flag.String("module", "github.com/dadrus/heimdall", "module path of -repo")
+	ctor := flag.String("ctor", "", "constructor of the type: may only be declared and handed to fx.Provide (no decorator)")
 	flag.Parse()
 
 	fset := token.NewFileSet()
@@ -1556,6 +1557,43 @@ func main() {
 
 			return true
 		})
+	}
+
+	// the constructor must reach the application undecorated: besides its declaration it may only appear as a
+	// direct argument of fx.Provide(...) (a caching / metrics wrapper around the repository would not be analysed)
+	if *ctor != "" {
+		for _, of := range parseDir(fset, filepath.Dir(path)) {
+			allowed := map[*ast.Ident]bool{}
+
+			ast.Inspect(of, func(n ast.Node) bool {
+				switch v := n.(type) {
+				case *ast.FuncDecl:
+					if v.Name.Name == *ctor && v.Recv == nil {
+						allowed[v.Name] = true
+					}
+				case *ast.CallExpr:
+					if sel, ok := v.Fun.(*ast.SelectorExpr); ok && sel.Sel.Name == "Provide" {
+						if id, ok := sel.X.(*ast.Ident); ok && id.Name == "fx" {
+							for _, a := range v.Args {
+								if aid, ok := a.(*ast.Ident); ok && aid.Name == *ctor {
+									allowed[aid] = true
+								}
+							}
+						}
+					}
+				}
+
+				return true
+			})
+
+			ast.Inspect(of, func(n ast.Node) bool {
+				if id, ok := n.(*ast.Ident); ok && id.Name == *ctor && !allowed[id] {
+					externalAccess = append(externalAccess, x.pos(id)+": "+*ctor+" used other than in fx.Provide")
+				}
+
+				return true
+			})
+		}
 	}
 
 	var (
